@@ -1,7 +1,7 @@
 (* Proofs/Reblock.v -- C12: the re-blocker (Model/Reblock.v over the generated Gen/Reblock.v). *)
 From Coq Require Import ZArith List Bool Lia.
 Import ListNotations.
-From SZ Require Import Lib.Py Gen.Utils Gen.Reader Gen.Reblock Spec.Container Proofs.PyLemmas Proofs.Layout
+From SZ Require Import Lib.Py Gen.Utils Gen.Version Gen.Reader Gen.Reblock Spec.Container Proofs.PyLemmas Proofs.Layout
   Proofs.Default Model.Reblock.
 Open Scope Z_scope.
 
@@ -165,4 +165,836 @@ Proof.
         * rewrite znth_app2 by (rewrite IL; lia). rewrite IL. f_equal. lia.
         * rewrite znth_app1; [apply IN; lia|]. rewrite IL. nia. }
   apply G; lia.
+Qed.
+
+(* ================= the geometry under the two asserts ================= *)
+Section REBLOCK.
+Variable H : hdr.
+Hypothesis W : wf3 H = true.
+Hypothesis G : rb_guard H = true.
+Let F := wf3_facts H W.
+
+Lemma guard_unpack :
+  rd_rate_n H = 2 * rd_rate_d H /\ rd_blockshape0 H = 4 /\ rd_blockshape1 H = 4 /\ rd_blockshape2 H = 1024.
+Proof.
+  unfold rb_guard, rb_assert_rate, rb_assert_blockshape in G.
+  rewrite !andb_true_iff, !Z.eqb_eq in G. tauto.
+Qed.
+
+Lemma guard_rate_code : s_rate_code H = 2.
+Proof.
+  destruct guard_unpack as (R & _). rewrite (r_rn H F), (r_rd H F) in R. unfold s_rn, s_rd in R.
+  destruct (Z.ltb_spec (s_rate_code H) 0); lia.
+Qed.
+Lemma guard_rate_integral : rd_rate_d H = 1 /\ rd_rate_n H = 2.
+Proof. rewrite (r_rn H F), (r_rd H F). unfold s_rn, s_rd. rewrite guard_rate_code. cbn. lia. Qed.
+Lemma g_default : default_layout H.
+Proof. destruct guard_unpack as (_ & B0 & B1 & _). rewrite (r_bs0 H F) in B0. rewrite (r_bs1 H F) in B1. split; assumption. Qed.
+Lemma g_bs2 : s_bs2 H = 1024.
+Proof. destruct guard_unpack as (_ & _ & _ & B2). rewrite (r_bs2 H F) in B2. exact B2. Qed.
+Lemma g_ub : s_ub3 H = 16.
+Proof. unfold s_ub3, s_rn, s_rd. rewrite guard_rate_code. reflexivity. Qed.
+Lemma g_unit_bytes : rd_unit_bytes H = 16.
+Proof. rewrite (r_ub H F). exact g_ub. Qed.
+
+(* padded extents of the source: PX multiple of 4, PZ multiple of 1024 *)
+Definition PXs := s_PX H.
+Definition PZs := s_PZ H.
+Definition C := rd_chunk_bytes H.
+
+Lemma g_PX : s_nxl H <= PXs < s_nxl H + 4 /\ PXs mod 4 = 0.
+Proof.
+  unfold PXs, s_PX. destruct g_default as [_ D1]. rewrite D1.
+  destruct (pad_to_spec (s_nxl H) 4 ltac:(lia)) as (A & B & _). split; [lia | exact B].
+Qed.
+Lemma g_PI : s_nil H <= s_PI H < s_nil H + 4 /\ s_PI H mod 4 = 0.
+Proof.
+  unfold s_PI. destruct g_default as [D0 _]. rewrite D0.
+  destruct (pad_to_spec (s_nil H) 4 ltac:(lia)) as (A & B & _). split; [lia | exact B].
+Qed.
+Lemma g_PZ : s_ns H <= PZs /\ PZs mod 1024 = 0 /\ 1024 <= PZs.
+Proof.
+  unfold PZs. destruct (f_PZ H F) as (A & B & _ & D). rewrite g_bs2 in B, D. lia.
+Qed.
+Lemma g_C : C = 4 * PZs.
+Proof.
+  unfold C, PZs. rewrite (cb_units H W g_default), g_ub.
+  destruct (f_PZ H F) as (_ & _ & M4 & _).
+  pose proof (Z.div_mod (s_PZ H) 4 ltac:(lia)) as DM. lia.
+Qed.
+Lemma g_C_pos : 4096 <= C.
+Proof. rewrite g_C. destruct g_PZ as (_ & _ & P). lia. Qed.
+Lemma g_sp1 : rd_shape_pad1 H = PXs. Proof. exact (r_P1 H F). Qed.
+Lemma g_sp2 : rd_shape_pad2 H = PZs. Proof. exact (r_P2 H F). Qed.
+
+Lemma g_inline_bytes : 4 * rb_inline_bytes H = (PXs / 4) * C.
+Proof.
+  unfold rb_inline_bytes, rb_rate. rewrite g_sp1, g_sp2. destruct guard_rate_integral as [_ ->]. rewrite g_C.
+  destruct g_PX as (_ & M). pose proof (exact_div PXs 4 ltac:(lia) M) as E. set (q := PXs / 4) in *.
+  rewrite E. replace (PZs * (4 * q) * 2) with ((PZs * q) * 8) by ring. rewrite Z.div_mul by lia. ring.
+Qed.
+
+(* the output grid *)
+Definition PIo := pad_to (s_nil H) 64.
+Definition PXo := pad_to (s_nxl H) 64.
+Definition PZo := pad_to (s_ns H) 4.
+Lemma g_ps0 : rb_padded_shape0 H = PIo.
+Proof. unfold rb_padded_shape0, rb_new_blockshape0, PIo. rewrite (r_nil H F). apply pad_is_pad_to. lia. Qed.
+Lemma g_ps1 : rb_padded_shape1 H = PXo.
+Proof. unfold rb_padded_shape1, rb_new_blockshape1, PXo. rewrite (r_nxl H F). apply pad_is_pad_to. lia. Qed.
+Lemma g_ps2 : rb_padded_shape2 H = PZo.
+Proof. unfold rb_padded_shape2, rb_new_blockshape2, PZo. rewrite (r_ns H F). apply pad_is_pad_to. lia. Qed.
+Definition Ib := PIo / 64.
+Definition Xb := PXo / 64.
+Definition Zb := PZo / 4.
+Lemma g_Ib : PIo = 64 * Ib /\ 64 * (Ib - 1) < s_nil H <= 64 * Ib.
+Proof.
+  unfold Ib, PIo. destruct (pad_to_spec (s_nil H) 64 ltac:(lia)) as (A & B & _).
+  pose proof (exact_div _ 64 ltac:(lia) B). lia.
+Qed.
+Lemma g_Xb : PXo = 64 * Xb /\ 64 * (Xb - 1) < s_nxl H <= 64 * Xb.
+Proof.
+  unfold Xb, PXo. destruct (pad_to_spec (s_nxl H) 64 ltac:(lia)) as (A & B & _).
+  pose proof (exact_div _ 64 ltac:(lia) B). lia.
+Qed.
+Lemma g_Zb : PZo = 4 * Zb /\ 4 * (Zb - 1) < s_ns H <= 4 * Zb.
+Proof.
+  unfold Zb, PZo. destruct (pad_to_spec (s_ns H) 4 ltac:(lia)) as (A & B & _).
+  pose proof (exact_div _ 4 ltac:(lia) B). lia.
+Qed.
+Lemma g_Zb_C : 1 <= Zb /\ 16 * Zb <= C.
+Proof.
+  destruct g_Zb as (E & A). pose proof (f_ns H F). destruct g_PZ as (P1 & P2 & P3). rewrite g_C.
+  pose proof (exact_div PZs 1024 ltac:(lia) P2). lia.
+Qed.
+
+(* i_count / x_count: n < count  <->  the 4-line unit row contains a real line *)
+Lemma i_count_spec i : 0 <= i < Ib ->
+  0 <= rb_i_count H i <= 16 /\ forall n, 0 <= n < 16 -> (n < rb_i_count H i <-> 4 * (16 * i + n) < s_nil H).
+Proof.
+  intro Hi. destruct g_Ib as (_ & A). unfold rb_i_count, rb_new_blockshape0. rewrite (r_nil H F).
+  destruct (Z.gtb_spec ((i + 1) * 64) (s_nil H)) as [Hg | Hg].
+  - assert (Ei : i = Ib - 1) by lia.
+    assert (Em : s_nil H mod 64 = s_nil H - 64 * i).
+    { symmetry. apply (Z.mod_unique_pos _ _ i); lia. }
+    rewrite Em. set (r := s_nil H - 64 * i) in *.
+    pose proof (Z.div_mod (r + 3) 4 ltac:(lia)) as DM. pose proof (Z.mod_pos_bound (r + 3) 4 ltac:(lia)) as MB.
+    split; [lia|]. intros n Hn. lia.
+  - split; [lia|]. intros n Hn. lia.
+Qed.
+Lemma x_count_spec i ic x : 0 <= x < Xb ->
+  0 <= rb_x_count H i ic x <= 16 /\ forall c, 0 <= c < 16 -> (c < rb_x_count H i ic x <-> 4 * (16 * x + c) < s_nxl H).
+Proof.
+  intro Hi. destruct g_Xb as (_ & A). unfold rb_x_count, rb_new_blockshape1. rewrite (r_nxl H F).
+  destruct (Z.gtb_spec ((x + 1) * 64) (s_nxl H)) as [Hg | Hg].
+  - assert (Ei : x = Xb - 1) by lia.
+    assert (Em : s_nxl H mod 64 = s_nxl H - 64 * x).
+    { symmetry. apply (Z.mod_unique_pos _ _ x); lia. }
+    rewrite Em. set (r := s_nxl H - 64 * x) in *.
+    pose proof (Z.div_mod (r + 3) 4 ltac:(lia)) as DM. pose proof (Z.mod_pos_bound (r + 3) 4 ltac:(lia)) as MB.
+    split; [lia|]. intros n Hn. lia.
+  - split; [lia|]. intros n Hn. lia.
+Qed.
+
+(* ================= reading the source ================= *)
+Lemma znth_zrange_nat lo n j : (j < n)%nat -> nth j (zrange_nat lo n) 0 = lo + Z.of_nat j.
+Proof.
+  revert lo j. induction n as [|n IH]; intros lo j Hj; [lia|].
+  destruct j as [|j]; cbn [zrange_nat nth]; [lia|]. rewrite IH by lia. lia.
+Qed.
+
+Lemma file_read_full L off len : 0 <= len -> off + len <= L ->
+  zlen (file_read L off len) = len /\ forall j, 0 <= j < len -> znth (file_read L off len) j None = Some (off + j).
+Proof.
+  intros Hl Hfit. unfold file_read. replace (len <? 0) with false by lia. rewrite Z.min_l by lia.
+  unfold zlen, zrange. rewrite map_length, zrange_nat_length. split; [lia|].
+  intros j Hj. unfold znth. replace (j <? 0) with false by lia.
+  rewrite (nth_indep _ None (Some 0)) by (rewrite map_length, zrange_nat_length; lia).
+  rewrite (map_nth Some). rewrite znth_zrange_nat by lia. f_equal. lia.
+Qed.
+
+Variable L : Z.
+Hypothesis HL : rd_data_start_bytes H + s_data_bytes3 H <= L.
+Definition ds := rd_data_start_bytes H.
+Definition Q := PXs / 4.
+Definition R := s_PI H / 4.
+
+Lemma g_Q : PXs = 4 * Q /\ 1 <= Q /\ 4 * (Q - 1) < s_nxl H <= 4 * Q.
+Proof.
+  unfold Q. destruct g_PX as (A & M). pose proof (exact_div PXs 4 ltac:(lia) M). pose proof (f_nxl H F). lia.
+Qed.
+Lemma g_R : s_PI H = 4 * R /\ 1 <= R /\ 4 * (R - 1) < s_nil H <= 4 * R.
+Proof.
+  unfold R. destruct g_PI as (A & M). pose proof (exact_div (s_PI H) 4 ltac:(lia) M). pose proof (f_nil H F). lia.
+Qed.
+Lemma g_data_bytes : s_data_bytes3 H = R * Q * C.
+Proof.
+  unfold s_data_bytes3, R, Q, PXs. rewrite g_ub. rewrite g_C. unfold PZs.
+  destruct (f_PZ H F) as (_ & _ & M4 & _). pose proof (exact_div (s_PZ H) 4 ltac:(lia) M4) as E.
+  set (t := s_PZ H / 4) in *. rewrite E. ring.
+Qed.
+
+Lemma seek_eq i ic x xc n : rb_seek H i ic x xc n = ds + ((16 * i + n) * Q + 16 * x) * C.
+Proof.
+  unfold rb_seek, ds. fold C.
+  replace (4 * (n + i * 16) * rb_inline_bytes H) with ((n + i * 16) * (4 * rb_inline_bytes H)) by ring.
+  rewrite g_inline_bytes. fold Q. ring.
+Qed.
+
+(* every read lies inside the data section of the source *)
+Lemma read_in_data i x n : 0 <= i < Ib -> 0 <= x < Xb -> 0 <= n < rb_i_count H i ->
+  let ic := rb_i_count H i in let xc := rb_x_count H i ic x in
+  1 <= xc /\ ds <= rb_seek H i ic x xc n /\
+  rb_seek H i ic x xc n + rb_read_len H i ic x xc n <= ds + s_data_bytes3 H.
+Proof.
+  intros Hi Hx Hn ic xc. rewrite seek_eq. unfold rb_read_len. fold C. rewrite g_data_bytes.
+  destruct (i_count_spec i Hi) as (IC & ICs). destruct (x_count_spec i ic x Hx) as (XC & XCs). fold xc in XC, XCs. fold ic in Hn.
+  fold ic in IC.
+  assert (Hn16 : 0 <= n < 16) by lia.
+  pose proof (proj1 (ICs n Hn16) ltac:(lia)) as Hreal.
+  destruct g_R as (_ & R1 & R2 & R3). destruct g_Q as (_ & Q1 & Q2 & Q3). destruct g_Xb as (_ & XB).
+  assert (X1 : 1 <= xc).
+  { destruct (Z.le_gt_cases 1 xc) as [Hle | Hgt]; [exact Hle|]. exfalso.
+    assert (~ (0 < xc)) by lia. apply H0. apply (XCs 0); lia. }
+  assert (X2 : 16 * x + xc <= Q).
+  { pose proof (proj1 (XCs (xc - 1) ltac:(lia)) ltac:(lia)). lia. }
+  assert (I2 : 16 * i + n + 1 <= R) by lia.
+  pose proof g_C_pos as CP. split; [exact X1|]. split.
+  - assert (0 <= ((16 * i + n) * Q + 16 * x) * C) by nia. lia.
+  - assert (E : ((16 * i + n) * Q + 16 * x) * C + C * xc = ((16 * i + n) * Q + (16 * x + xc)) * C) by ring.
+    assert (B1 : (16 * i + n) * Q + (16 * x + xc) <= (16 * i + n + 1) * Q) by lia.
+    assert (B2 : (16 * i + n + 1) * Q <= R * Q) by nia.
+    assert (B3 : ((16 * i + n) * Q + (16 * x + xc)) * C <= (R * Q) * C) by nia.
+    lia.
+Qed.
+
+(* ================= the staging buffer ================= *)
+Lemma cell_bound c j : 0 <= c < 16 -> 0 <= j < C ->
+  0 <= c * C + j < 16 * C /\ (forall xc, c < xc -> c * C + j < xc * C) /\ (forall xc, xc <= c -> xc * C <= c * C + j).
+Proof.
+  intros Hc Hj. pose proof g_C_pos as CP. split; [nia|]. split; intros xc Hxc; nia.
+Qed.
+
+Lemma fill_spec i x : 0 <= i < Ib -> 0 <= x < Xb ->
+  let ic := rb_i_count H i in let xc := rb_x_count H i ic x in
+  zlen (rb_fill H L i x) = 256 * C /\
+  forall n c j, 0 <= n < 16 -> 0 <= c < 16 -> 0 <= j < C ->
+    znth (rb_fill H L i x) (n * (16 * C) + c * C + j) None =
+    if (n <? ic) && (c <? xc) then Some (ds + ((16 * i + n) * Q + 16 * x + c) * C + j) else None.
+Proof.
+  intros Hi Hx ic xc. unfold rb_fill. fold ic. fold xc. unfold rb_n_stop, rb_buffer_len. fold C.
+  destruct (i_count_spec i Hi) as (IC & _). fold ic in IC. destruct (x_count_spec i ic x Hx) as (XC & _). fold xc in XC.
+  pose proof g_C_pos as CP.
+  set (f := fun buf n => splice buf (rb_idx_lo H i ic x xc n) (rb_idx_hi H i ic x xc n)
+                               (file_read L (rb_seek H i ic x xc n) (rb_read_len H i ic x xc n))).
+  apply (fold_zrange_ind f (fun m buf => zlen buf = 256 * C /\
+     forall n c j, 0 <= n < 16 -> 0 <= c < 16 -> 0 <= j < C ->
+       znth buf (n * (16 * C) + c * C + j) None =
+       if (n <? m) && (c <? xc) then Some (ds + ((16 * i + n) * Q + 16 * x + c) * C + j) else None)); [lia | |].
+  - split.
+    + unfold zeros. replace (C * 16 * 16) with (256 * C) by ring. apply zlen_repeat. lia.
+    + intros n c j Hn Hc Hj. replace (n <? 0) with false by lia. cbn [andb]. unfold zeros. apply znth_repeat.
+  - intros k buf Hk (IL & IN). unfold f.
+    pose proof (read_in_data i x k Hi Hx ltac:(fold ic; lia)) as RD. cbv zeta in RD. fold ic in RD. fold xc in RD.
+    destruct RD as (X1 & S1 & S2).
+    assert (RL : 0 <= rb_read_len H i ic x xc k) by (unfold rb_read_len; fold C; nia).
+    assert (FIT : rb_seek H i ic x xc k + rb_read_len H i ic x xc k <= L) by (unfold ds in S2; lia).
+    destruct (file_read_full L (rb_seek H i ic x xc k) (rb_read_len H i ic x xc k) RL FIT) as (FL & FN).
+    assert (Elo : rb_idx_lo H i ic x xc k = k * (16 * C)) by (unfold rb_idx_lo; fold C; ring).
+    assert (Ehi : rb_idx_hi H i ic x xc k = k * (16 * C) + xc * C) by (unfold rb_idx_hi; fold C; ring).
+    assert (Erl : rb_read_len H i ic x xc k = xc * C) by (unfold rb_read_len; fold C; ring).
+    rewrite Elo, Ehi, Erl. rewrite Erl in FL, FN.
+    destruct (splice_same buf (file_read L (rb_seek H i ic x xc k) (xc * C)) (k * (16 * C)) (k * (16 * C) + xc * C))
+      as (SL & SN); [nia | rewrite IL; nia | rewrite FL; lia |].
+    split; [rewrite SL; exact IL|].
+    intros n c j Hn Hc Hj. rewrite SN. destruct (cell_bound c j Hc Hj) as (CB1 & CB2 & CB3).
+    destruct (Z.lt_trichotomy n k) as [Hlt | [Heq | Hgt]].
+    + replace (k * (16 * C) <=? n * (16 * C) + c * C + j) with false by nia. cbn [andb].
+      rewrite IN by assumption. replace (n <? k) with true by lia. replace (n <? k + 1) with true by lia. reflexivity.
+    + subst n. replace (k * (16 * C) <=? k * (16 * C) + c * C + j) with true by lia. cbn [andb].
+      replace (k <? k + 1) with true by lia. cbn [andb].
+      destruct (Z.ltb_spec c xc) as [Hcx | Hcx].
+      * replace (k * (16 * C) + c * C + j <? k * (16 * C) + xc * C) with true by (pose proof (CB2 xc Hcx); lia).
+        rewrite FN by (pose proof (CB2 xc Hcx); lia). rewrite seek_eq. f_equal. ring.
+      * replace (k * (16 * C) + c * C + j <? k * (16 * C) + xc * C) with false by (pose proof (CB3 xc Hcx); lia).
+        rewrite IN by assumption. replace (k <? k) with false by lia. reflexivity.
+    + replace (n * (16 * C) + c * C + j <? k * (16 * C) + xc * C) with false by nia.
+      rewrite andb_false_r. rewrite IN by assumption. replace (n <? k) with false by lia.
+      replace (n <? k + 1) with false by lia. reflexivity.
+Qed.
+
+(* ================= one output block ================= *)
+Lemma block_spec i x buf z : zlen buf = 256 * C -> 0 <= z < Zb ->
+  zlen (rb_block H i x buf z) = 4096 /\
+  forall u j, 0 <= u < 256 -> 0 <= j < 16 ->
+    znth (rb_block H i x buf z) (u * 16 + j) None = znth buf (u * C + z * 16 + j) None.
+Proof.
+  intros BL Hz. unfold rb_block. set (ic := rb_i_count H i). set (xc := rb_x_count H i ic x).
+  change (rb_u_stop H i ic x xc z) with 4096. change (rb_block_len H i ic x xc z) with 4096.
+  pose proof g_C_pos as CP. destruct g_Zb_C as (Z1 & ZC).
+  set (f := fun blk u => splice blk (rb_dst_lo H i ic x xc z u) (rb_dst_hi H i ic x xc z u)
+                                (pyslice buf (rb_src_lo H i ic x xc z u) (rb_src_hi H i ic x xc z u))).
+  assert (PP : zlen (fold_left f (zrange 0 4096) (zeros 4096)) = 4096 /\
+     forall u j, 0 <= u < 256 -> 0 <= j < 16 ->
+       znth (fold_left f (zrange 0 4096) (zeros 4096)) (u * 16 + j) None =
+       if u <? 4096 then znth buf (u * C + z * 16 + j) None else None).
+  { apply (fold_zrange_ind f (fun m blk => zlen blk = 4096 /\
+       forall u j, 0 <= u < 256 -> 0 <= j < 16 ->
+         znth blk (u * 16 + j) None = if u <? m then znth buf (u * C + z * 16 + j) None else None)); [lia | |].
+    - split; [apply zlen_repeat; lia|]. intros u j Hu Hj. replace (u <? 0) with false by lia. apply znth_repeat.
+    - intros k blk Hk (IL & IN). unfold f.
+      assert (Edl : rb_dst_lo H i ic x xc z k = k * 16) by (unfold rb_dst_lo; rewrite g_unit_bytes; ring).
+      assert (Edh : rb_dst_hi H i ic x xc z k = k * 16 + 16) by (unfold rb_dst_hi; rewrite g_unit_bytes; ring).
+      assert (Esl : rb_src_lo H i ic x xc z k = k * C + z * 16) by (unfold rb_src_lo; rewrite g_unit_bytes; fold C; ring).
+      assert (Esh : rb_src_hi H i ic x xc z k = k * C + z * 16 + 16) by (unfold rb_src_hi; rewrite g_unit_bytes; fold C; ring).
+      rewrite Edl, Edh, Esl, Esh.
+      destruct (Z.lt_ge_cases k 256) as [Hlt | Hge].
+      + destruct (pyslice_in buf (k * C + z * 16) (k * C + z * 16 + 16)) as (PL & PN); [nia | rewrite BL; nia |].
+        destruct (splice_same blk (pyslice buf (k * C + z * 16) (k * C + z * 16 + 16)) (k * 16) (k * 16 + 16))
+          as (SL & SN); [lia | lia | rewrite PL; lia |].
+        split; [lia|]. intros u j Hu Hj. rewrite SN.
+        destruct (Z.eq_dec u k) as [-> | Hne].
+        * replace ((k * 16 <=? k * 16 + j) && (k * 16 + j <? k * 16 + 16)) with true by lia.
+          replace (k <? k + 1) with true by lia. rewrite PN by lia. f_equal. lia.
+        * replace ((k * 16 <=? u * 16 + j) && (u * 16 + j <? k * 16 + 16)) with false by lia.
+          rewrite IN by assumption. replace (u <? k + 1) with (u <? k) by lia. reflexivity.
+      + rewrite pyslice_beyond by (rewrite BL; nia). rewrite splice_noop by lia.
+        split; [exact IL|]. intros u j Hu Hj. rewrite IN by assumption.
+        replace (u <? k + 1) with true by lia. replace (u <? k) with true by lia. reflexivity. }
+  destruct PP as (PL & PN). split; [exact PL|]. intros u j Hu Hj. rewrite PN by assumption.
+  replace (u <? 4096) with true by lia. reflexivity.
+Qed.
+
+(* ================= the data section ================= *)
+Lemma z_stop_eq i ic x xc : rb_z_stop H i ic x xc = Zb.
+Proof. unfold rb_z_stop, rb_new_blockshape2, Zb. rewrite g_ps2. reflexivity. Qed.
+Lemma x_stop_eq i ic : rb_x_stop H i ic = Xb.
+Proof. unfold rb_x_stop, rb_new_blockshape1, Xb. rewrite g_ps1. reflexivity. Qed.
+Lemma i_stop_eq : rb_i_stop H = Ib.
+Proof. unfold rb_i_stop, rb_new_blockshape0, Ib. rewrite g_ps0. reflexivity. Qed.
+
+Lemma g_Ib_pos : 1 <= Ib. Proof. destruct g_Ib as (_ & A). pose proof (f_nil H F). lia. Qed.
+Lemma g_Xb_pos : 1 <= Xb. Proof. destruct g_Xb as (_ & A). pose proof (f_nxl H F). lia. Qed.
+
+Lemma blocks_x_spec i x : 0 <= i < Ib -> 0 <= x < Xb ->
+  zlen (rb_blocks_x H L i x) = Zb * 4096 /\
+  forall z q, 0 <= z < Zb -> 0 <= q < 4096 ->
+    znth (rb_blocks_x H L i x) (z * 4096 + q) None = znth (rb_block H i x (rb_fill H L i x) z) q None.
+Proof.
+  intros Hi Hx. unfold rb_blocks_x. rewrite z_stop_eq. destruct g_Zb_C as (Z1 & _).
+  destruct (fill_spec i x Hi Hx) as (FLn & _).
+  destruct (flat_map_blocks (fun z => rb_block H i x (rb_fill H L i x) z) 4096 Zb) as (A & B); [lia | lia | |].
+  - intros a Ha. apply block_spec; assumption.
+  - split; [exact A|]. intros z q Hz Hq. apply B; assumption.
+Qed.
+
+Lemma blocks_i_spec i : 0 <= i < Ib ->
+  zlen (rb_blocks_i H L i) = Xb * (Zb * 4096) /\
+  forall x q, 0 <= x < Xb -> 0 <= q < Zb * 4096 ->
+    znth (rb_blocks_i H L i) (x * (Zb * 4096) + q) None = znth (rb_blocks_x H L i x) q None.
+Proof.
+  intros Hi. unfold rb_blocks_i. rewrite x_stop_eq. destruct g_Zb_C as (Z1 & _). pose proof g_Xb_pos.
+  destruct (flat_map_blocks (fun x => rb_blocks_x H L i x) (Zb * 4096) Xb) as (A & B); [lia | lia | |].
+  - intros a Ha. apply blocks_x_spec; assumption.
+  - split; [exact A|]. intros x q Hx Hq. apply B; assumption.
+Qed.
+
+Lemma data_spec :
+  zlen (rb_data H L) = Ib * (Xb * (Zb * 4096)) /\
+  forall i q, 0 <= i < Ib -> 0 <= q < Xb * (Zb * 4096) ->
+    znth (rb_data H L) (i * (Xb * (Zb * 4096)) + q) None = znth (rb_blocks_i H L i) q None.
+Proof.
+  unfold rb_data. rewrite i_stop_eq. destruct g_Zb_C as (Z1 & _). pose proof g_Xb_pos. pose proof g_Ib_pos.
+  destruct (flat_map_blocks (fun i => rb_blocks_i H L i) (Xb * (Zb * 4096)) Ib) as (A & B); [lia | nia | |].
+  - intros a Ha. apply blocks_i_spec; assumption.
+  - split; [exact A|]. intros i q Hi Hq. apply B; assumption.
+Qed.
+
+(* byte j of the unit written at position (block (i,x,z), row n, column c) *)
+Lemma data_unit i n x c z j :
+  0 <= i < Ib -> 0 <= n < 16 -> 0 <= x < Xb -> 0 <= c < 16 -> 0 <= z < Zb -> 0 <= j < 16 ->
+  znth (rb_data H L) ((((i * Xb + x) * Zb + z) * 256 + (n * 16 + c)) * 16 + j) None =
+  if (4 * (16 * i + n) <? s_nil H) && (4 * (16 * x + c) <? s_nxl H)
+  then Some (ds + 16 * (((16 * i + n) * Q + (16 * x + c)) * (PZs / 4) + z) + j) else None.
+Proof.
+  intros Hi Hn Hx Hc Hz Hj. destruct g_Zb_C as (Z1 & ZC). pose proof g_Xb_pos as XP. pose proof g_C_pos as CP.
+  destruct data_spec as (_ & D1). destruct (blocks_i_spec i Hi) as (_ & D2). destruct (blocks_x_spec i x Hi Hx) as (_ & D3).
+  destruct (fill_spec i x Hi Hx) as (FL & FN). destruct (block_spec i x (rb_fill H L i x) z FL Hz) as (_ & D4).
+  set (q3 := (n * 16 + c) * 16 + j). set (q2 := z * 4096 + q3). set (q1 := x * (Zb * 4096) + q2).
+  assert (B3 : 0 <= q3 < 4096) by (unfold q3; lia).
+  assert (B2 : 0 <= q2 < Zb * 4096) by (unfold q2; nia).
+  assert (B1 : 0 <= q1 < Xb * (Zb * 4096)) by (unfold q1; nia).
+  replace ((((i * Xb + x) * Zb + z) * 256 + (n * 16 + c)) * 16 + j) with (i * (Xb * (Zb * 4096)) + q1)
+    by (unfold q1, q2, q3; ring).
+  rewrite D1 by assumption. unfold q1. rewrite D2 by assumption. unfold q2. rewrite D3 by assumption. unfold q3.
+  rewrite D4 by lia.
+  replace ((n * 16 + c) * C + z * 16 + j) with (n * (16 * C) + c * C + (z * 16 + j)) by ring.
+  rewrite FN by lia.
+  destruct (i_count_spec i Hi) as (_ & ICs). destruct (x_count_spec i (rb_i_count H i) x Hx) as (_ & XCs).
+  pose proof (ICs n Hn) as In_. pose proof (XCs c Hc) as Ic_.
+  assert (E1 : (n <? rb_i_count H i) = (4 * (16 * i + n) <? s_nil H)).
+  { destruct (Z.ltb_spec n (rb_i_count H i)); destruct (Z.ltb_spec (4 * (16 * i + n)) (s_nil H)); try reflexivity; lia. }
+  assert (E2 : (c <? rb_x_count H i (rb_i_count H i) x) = (4 * (16 * x + c) <? s_nxl H)).
+  { destruct (Z.ltb_spec c (rb_x_count H i (rb_i_count H i) x)); destruct (Z.ltb_spec (4 * (16 * x + c)) (s_nxl H)); try reflexivity; lia. }
+  rewrite E1, E2. destruct ((4 * (16 * i + n) <? s_nil H) && (4 * (16 * x + c) <? s_nxl H)); [|reflexivity].
+  f_equal. rewrite g_C. destruct (f_PZ H F) as (_ & _ & M4 & _). fold PZs in M4.
+  pose proof (exact_div PZs 4 ltac:(lia) M4) as E. set (t := PZs / 4) in *. rewrite E. ring.
+Qed.
+
+(* ================= the output header and the specification's unit addressing ================= *)
+Lemma radix2_bound a A b B : 0 <= a < A -> 0 <= b < B -> 0 <= a * B + b < A * B.
+Proof. intros Ha Hb. split; [nia|]. assert (a * B + B <= A * B) by nia. lia. Qed.
+Lemma zdiv_exact a k q : 0 < k -> a = k * q -> a / k = q.
+Proof. intros Hk ->. rewrite Z.mul_comm. apply Z.div_mul. lia. Qed.
+
+Definition Nblk := Ib * Xb * Zb.
+Definition Ho := set_layout H 64 64 4 Nblk.
+
+Lemma cdl_eq : rb_compressed_data_length_diskblocks H = Nblk.
+Proof.
+  unfold rb_compressed_data_length_diskblocks, rb_rate. destruct guard_rate_integral as [_ ->].
+  rewrite g_ps0, g_ps1, g_ps2. destruct g_Ib as (-> & _). destruct g_Xb as (-> & _). destruct g_Zb as (-> & _).
+  unfold Nblk. replace (2 * (4 * Zb) * (64 * Xb) * (64 * Ib)) with ((Ib * Xb * Zb) * (8 * 4096)) by ring.
+  apply Z.div_mul. lia.
+Qed.
+
+Lemma Ho_wf : wf3 Ho = true.
+Proof.
+  destruct (wf3_unpack H W) as (Hil & Hxl & Hns & _).
+  pose proof guard_rate_code as RC. unfold wf3.
+  change (s_nil Ho) with (s_nil H). change (s_nxl Ho) with (s_nxl H). change (s_ns Ho) with (s_ns H).
+  change (s_bs0 Ho) with 64. change (s_bs1 Ho) with 64. change (s_bs2 Ho) with 4.
+  change (s_rate_code Ho) with (s_rate_code H). change (s_ub3 Ho) with (s_ub3 H).
+  change (s_rn Ho) with (s_rn H). change (s_rd Ho) with (s_rd H).
+  rewrite g_ub. unfold s_rn, s_rd. rewrite RC.
+  replace (1 <=? s_nil H) with true by lia. replace (1 <=? s_nxl H) with true by lia.
+  replace (1 <=? s_ns H) with true by lia. reflexivity.
+Qed.
+
+Lemma Ho_PI : s_PI Ho = 64 * Ib. Proof. destruct g_Ib as (E & _). exact E. Qed.
+Lemma Ho_PX : s_PX Ho = 64 * Xb. Proof. destruct g_Xb as (E & _). exact E. Qed.
+Lemma Ho_PZ : s_PZ Ho = 4 * Zb. Proof. destruct g_Zb as (E & _). exact E. Qed.
+Lemma Ho_ub : s_ub3 Ho = 16. Proof. exact g_ub. Qed.
+
+Lemma Ho_data_bytes : s_data_bytes3 Ho = 4096 * s_ndb Ho /\ zlen (rb_data H L) = s_data_bytes3 Ho.
+Proof.
+  destruct data_spec as (DL & _). unfold s_data_bytes3. rewrite Ho_PI, Ho_PX, Ho_PZ, Ho_ub, DL.
+  change (s_ndb Ho) with Nblk. unfold Nblk.
+  rewrite (zdiv_exact (64 * Ib) 4 (16 * Ib)) by lia.
+  rewrite (zdiv_exact (64 * Xb) 4 (16 * Xb)) by lia.
+  rewrite (zdiv_exact (4 * Zb) 4 Zb) by lia.
+  split; ring.
+Qed.
+
+Lemma Ho_unit_index i n x c z :
+  0 <= i -> 0 <= n < 16 -> 0 <= x -> 0 <= c < 16 -> 0 <= z ->
+  unit_index3 Ho (16 * i + n) (16 * x + c) z = ((i * Xb + x) * Zb + z) * 256 + (n * 16 + c).
+Proof.
+  intros Hi Hn Hx Hc Hz. unfold unit_index3. rewrite Ho_PX, Ho_PZ.
+  change (s_bs0 Ho) with 64. change (s_bs1 Ho) with 64. change (s_bs2 Ho) with 4.
+  change (64 / 4) with 16. change (4 / 4) with 1.
+  rewrite (zdiv_exact (64 * Xb) 64 Xb) by lia.
+  rewrite (zdiv_exact (4 * Zb) 4 Zb) by lia.
+  rewrite Z.div_1_r, Z.mod_1_r.
+  replace ((16 * i + n) / 16) with i by (apply (Z.div_unique_pos _ _ i n); lia).
+  replace ((16 * i + n) mod 16) with n by (apply (Z.mod_unique_pos _ _ i n); lia).
+  replace ((16 * x + c) / 16) with x by (apply (Z.div_unique_pos _ _ x c); lia).
+  replace ((16 * x + c) mod 16) with c by (apply (Z.mod_unique_pos _ _ x c); lia).
+  ring.
+Qed.
+
+(* THE UNIT PERMUTATION: the unit the specification locates at (iu,xu,zu) in the output file is the unit the
+   specification locates at (iu,xu,zu) in the source file when it contains a real voxel, and zero bytes otherwise *)
+Lemma unit_permutation iu xu zu j :
+  0 <= iu < s_PI Ho / 4 -> 0 <= xu < s_PX Ho / 4 -> 0 <= zu < s_PZ Ho / 4 -> 0 <= j < s_ub3 Ho ->
+  znth (rb_data H L) (s_ub3 Ho * unit_index3 Ho iu xu zu + j) None =
+  if (4 * iu <? s_nil H) && (4 * xu <? s_nxl H)
+  then Some (rd_data_start_bytes H + s_ub3 H * unit_index3 H iu xu zu + j) else None.
+Proof.
+  rewrite Ho_PI, Ho_PX, Ho_PZ, Ho_ub.
+  rewrite (zdiv_exact (64 * Ib) 4 (16 * Ib)) by lia.
+  rewrite (zdiv_exact (64 * Xb) 4 (16 * Xb)) by lia.
+  rewrite (zdiv_exact (4 * Zb) 4 Zb) by lia.
+  intros Hiu Hxu Hzu Hj.
+  pose proof (Z.div_mod iu 16 ltac:(lia)) as DI. pose proof (Z.mod_pos_bound iu 16 ltac:(lia)) as MI.
+  pose proof (Z.div_mod xu 16 ltac:(lia)) as DX. pose proof (Z.mod_pos_bound xu 16 ltac:(lia)) as MX.
+  set (i := iu / 16) in *. set (n := iu mod 16) in *. set (x := xu / 16) in *. set (c := xu mod 16) in *.
+  assert (Hi : 0 <= i < Ib) by lia. assert (Hx : 0 <= x < Xb) by lia.
+  rewrite DI, DX. rewrite Ho_unit_index by lia.
+  replace (16 * (((i * Xb + x) * Zb + zu) * 256 + (n * 16 + c)) + j)
+    with ((((i * Xb + x) * Zb + zu) * 256 + (n * 16 + c)) * 16 + j) by ring.
+  rewrite data_unit by lia.
+  rewrite (unit_index3_default H W g_default) by lia. rewrite g_ub. fold PXs. fold Q. fold PZs. unfold ds.
+  destruct ((4 * (16 * i + n) <? s_nil H) && (4 * (16 * x + c) <? s_nxl H)); [|reflexivity].
+  f_equal; try ring.
+Qed.
+
+(* hence: every real voxel is decoded from the same unit code, same cell, in both files *)
+Lemma voxel_provenance i x z : 0 <= i < s_nil H -> 0 <= x < s_nxl H -> 0 <= z < s_ns H ->
+  exists o o' c, spec_cell3 Ho i x z = PUnit o c /\ spec_cell3 H i x z = PUnit o' c /\
+    0 <= o /\ o + s_ub3 Ho <= zlen (rb_data H L) /\
+    forall j, 0 <= j < s_ub3 Ho -> znth (rb_data H L) (o + j) None = Some (rd_data_start_bytes H + o' + j).
+Proof.
+  intros Hi Hx Hz. unfold spec_cell3. do 3 eexists. split; [reflexivity|]. split; [reflexivity|].
+  destruct g_Ib as (_ & IB). destruct g_Xb as (_ & XB). destruct g_Zb as (_ & ZB).
+  assert (Ui : 0 <= i / 4 < 16 * Ib) by (pose proof (Z.div_mod i 4 ltac:(lia)); pose proof (Z.mod_pos_bound i 4 ltac:(lia)); lia).
+  assert (Ux : 0 <= x / 4 < 16 * Xb) by (pose proof (Z.div_mod x 4 ltac:(lia)); pose proof (Z.mod_pos_bound x 4 ltac:(lia)); lia).
+  assert (Uz : 0 <= z / 4 < Zb) by (pose proof (Z.div_mod z 4 ltac:(lia)); pose proof (Z.mod_pos_bound z 4 ltac:(lia)); lia).
+  assert (Ri : 4 * (i / 4) < s_nil H) by (pose proof (Z.div_mod i 4 ltac:(lia)); pose proof (Z.mod_pos_bound i 4 ltac:(lia)); lia).
+  assert (Rx : 4 * (x / 4) < s_nxl H) by (pose proof (Z.div_mod x 4 ltac:(lia)); pose proof (Z.mod_pos_bound x 4 ltac:(lia)); lia).
+  assert (PIe : s_PI Ho / 4 = 16 * Ib) by (rewrite Ho_PI; apply zdiv_exact; lia).
+  assert (PXe : s_PX Ho / 4 = 16 * Xb) by (rewrite Ho_PX; apply zdiv_exact; lia).
+  assert (PZe : s_PZ Ho / 4 = Zb) by (rewrite Ho_PZ; apply zdiv_exact; lia).
+  (* position of the unit inside the data section *)
+  pose proof (Z.div_mod (i / 4) 16 ltac:(lia)) as DI. pose proof (Z.mod_pos_bound (i / 4) 16 ltac:(lia)) as MI.
+  pose proof (Z.div_mod (x / 4) 16 ltac:(lia)) as DX. pose proof (Z.mod_pos_bound (x / 4) 16 ltac:(lia)) as MX.
+  assert (IDX : unit_index3 Ho (i / 4) (x / 4) (z / 4) =
+                (((i / 4 / 16) * Xb + x / 4 / 16) * Zb + z / 4) * 256 + ((i / 4) mod 16 * 16 + (x / 4) mod 16)).
+  { rewrite DI at 1. rewrite DX at 1. apply Ho_unit_index; lia. }
+  destruct Ho_data_bytes as (_ & DLen). destruct data_spec as (DL & _).
+  assert (Bnd : 0 <= unit_index3 Ho (i / 4) (x / 4) (z / 4) < Ib * (Xb * (Zb * 256))).
+  { rewrite IDX. set (a := i / 4 / 16) in *. set (b := x / 4 / 16) in *. set (n := (i / 4) mod 16) in *. set (m := (x / 4) mod 16) in *.
+    assert (Ha : 0 <= a < Ib) by lia. assert (Hb : 0 <= b < Xb) by lia.
+    pose proof (radix2_bound a Ib b Xb Ha Hb) as R1.
+    pose proof (radix2_bound (a * Xb + b) (Ib * Xb) (z / 4) Zb R1 Uz) as R2.
+    assert (Hr : 0 <= n * 16 + m < 256) by lia.
+    pose proof (radix2_bound ((a * Xb + b) * Zb + z / 4) (Ib * Xb * Zb) (n * 16 + m) 256 R2 Hr) as R3.
+    replace (Ib * (Xb * (Zb * 256))) with (Ib * Xb * Zb * 256) by ring. exact R3. }
+  split; [rewrite Ho_ub; lia|]. split; [rewrite Ho_ub, DL; lia|].
+  intros j Hj. rewrite unit_permutation by lia.
+  replace (4 * (i / 4) <? s_nil H) with true by lia. replace (4 * (x / 4) <? s_nxl H) with true by lia. reflexivity.
+Qed.
+
+(* every read the re-blocker issues lies inside the source's data section (so none is short on a complete file) *)
+Lemma reads_in_data_section off len : In (off, len) (rb_reads H) ->
+  rd_data_start_bytes H <= off /\ 0 < len /\ off + len <= rd_data_start_bytes H + s_data_bytes3 H.
+Proof.
+  unfold rb_reads. rewrite i_stop_eq. intro HI. apply in_flat_map in HI. destruct HI as (i & Hi & HI).
+  apply in_zrange in Hi. rewrite x_stop_eq in HI. apply in_flat_map in HI. destruct HI as (x & Hx & HI).
+  apply in_zrange in Hx. apply in_map_iff in HI. destruct HI as (n & E & Hn). apply in_zrange in Hn.
+  unfold rb_n_stop in Hn. inversion E; subst off len; clear E.
+  pose proof (read_in_data i x n Hi Hx Hn) as RD. cbv zeta in RD. destruct RD as (X1 & S1 & S2).
+  unfold ds in *. split; [exact S1|]. split; [|exact S2].
+  unfold rb_read_len. fold C. pose proof g_C_pos. nia.
+Qed.
+End REBLOCK.
+
+(* ================= header bytes ================= *)
+Lemma u32_le32 v : 0 <= v < 4294967296 ->
+  v mod 256 + 256 * ((v / 256) mod 256) + 65536 * ((v / 65536) mod 256) + 16777216 * ((v / 16777216) mod 256) = v.
+Proof.
+  intro Hv. change 65536 with (256 * 256). change 16777216 with (256 * 256 * 256).
+  rewrite <- !Z.div_div by lia.
+  set (a := v / 256). set (b := a / 256). set (c := b / 256).
+  pose proof (Z.div_mod v 256 ltac:(lia)) as D1. fold a in D1.
+  pose proof (Z.div_mod a 256 ltac:(lia)) as D2. fold b in D2.
+  pose proof (Z.div_mod b 256 ltac:(lia)) as D3. fold c in D3.
+  pose proof (Z.mod_pos_bound v 256 ltac:(lia)). pose proof (Z.mod_pos_bound a 256 ltac:(lia)).
+  pose proof (Z.mod_pos_bound b 256 ltac:(lia)).
+  assert (Hc : 0 <= c < 256) by lia.
+  rewrite (Z.mod_small c 256) by lia. lia.
+Qed.
+
+Lemma patch_spec (h : list Z) lo v : 0 <= lo -> lo + 4 <= zlen h ->
+  zlen (splice h lo (lo + 4) (le32 v)) = zlen h /\
+  forall k, znth (splice h lo (lo + 4) (le32 v)) k 0 =
+            if (lo <=? k) && (k <? lo + 4) then znth (le32 v) (k - lo) 0 else znth h k 0.
+Proof.
+  intros Hlo Hfit. destruct (splice_same h (le32 v) lo (lo + 4)) as (A & B); [lia | lia | change (zlen (le32 v)) with 4; lia |].
+  split; [exact A | intro k; apply B].
+Qed.
+
+Lemma u32_at_patch_same h lo v : 0 <= lo -> lo + 4 <= zlen h -> 0 <= v < 4294967296 ->
+  u32_at (splice h lo (lo + 4) (le32 v)) lo = v.
+Proof.
+  intros Hlo Hfit Hv. destruct (patch_spec h lo v Hlo Hfit) as (_ & B). unfold u32_at. rewrite !B.
+  replace ((lo <=? lo) && (lo <? lo + 4)) with true by lia.
+  replace ((lo <=? lo + 1) && (lo + 1 <? lo + 4)) with true by lia.
+  replace ((lo <=? lo + 2) && (lo + 2 <? lo + 4)) with true by lia.
+  replace ((lo <=? lo + 3) && (lo + 3 <? lo + 4)) with true by lia.
+  replace (lo - lo) with 0 by lia. replace (lo + 1 - lo) with 1 by lia. replace (lo + 2 - lo) with 2 by lia.
+  replace (lo + 3 - lo) with 3 by lia. change (znth (le32 v) 0 0) with (v mod 256).
+  change (znth (le32 v) 1 0) with ((v / 256) mod 256). change (znth (le32 v) 2 0) with ((v / 65536) mod 256).
+  change (znth (le32 v) 3 0) with ((v / 16777216) mod 256). apply u32_le32. exact Hv.
+Qed.
+
+Lemma znth_patch_other h lo v k : 0 <= lo -> lo + 4 <= zlen h -> k < lo \/ lo + 4 <= k ->
+  znth (splice h lo (lo + 4) (le32 v)) k 0 = znth h k 0.
+Proof.
+  intros Hlo Hfit Hk. destruct (patch_spec h lo v Hlo Hfit) as (_ & B). rewrite B.
+  replace ((lo <=? k) && (k <? lo + 4)) with false by lia. reflexivity.
+Qed.
+
+Lemma u32_at_patch_other h lo v o : 0 <= lo -> lo + 4 <= zlen h -> o + 4 <= lo \/ lo + 4 <= o ->
+  u32_at (splice h lo (lo + 4) (le32 v)) o = u32_at h o.
+Proof.
+  intros Hlo Hfit Ho. unfold u32_at. rewrite !znth_patch_other by lia. reflexivity.
+Qed.
+Lemma i32_at_patch_other h lo v o : 0 <= lo -> lo + 4 <= zlen h -> o + 4 <= lo \/ lo + 4 <= o ->
+  i32_at (splice h lo (lo + 4) (le32 v)) o = i32_at h o.
+Proof. intros. unfold i32_at. rewrite u32_at_patch_other by assumption. reflexivity. Qed.
+
+Lemma header_spec H hb : wf3 H = true -> rb_guard H = true -> 60 <= zlen hb -> Nblk H < 4294967296 ->
+  exists hb', rb_header H hb = Return hb' /\ zlen hb' = zlen hb /\
+    (forall k, k < 44 \/ 60 <= k -> znth hb' k 0 = znth hb k 0) /\
+    hdr_of_bytes hb' = set_layout (hdr_of_bytes hb) 64 64 4 (Nblk H).
+Proof.
+  intros W G Hlen Hn.
+  assert (N0 : 0 <= Nblk H).
+  { unfold Nblk. pose proof (g_Ib_pos H W). pose proof (g_Xb_pos H W). pose proof (g_Zb_C H W G). nia. }
+  unfold rb_header, rb_header_patches. rewrite (cdl_eq H W G).
+  change (rb_new_blockshape0 H) with 64. change (rb_new_blockshape1 H) with 64. change (rb_new_blockshape2 H) with 4.
+  cbn [fold_left bind]. change (int_to_bytes 64) with (Return (le32 64)). change (int_to_bytes 4) with (Return (le32 4)).
+  cbn [bind]. unfold int_to_bytes. replace ((0 <=? Nblk H) && (Nblk H <? 4294967296)) with true by lia. cbn [bind].
+  set (h1 := splice hb 44 48 (le32 64)). set (h2 := splice h1 48 52 (le32 64)). set (h3 := splice h2 52 56 (le32 4)).
+  set (h4 := splice h3 56 60 (le32 (Nblk H))).
+  destruct (patch_spec hb 44 64 ltac:(lia) ltac:(lia)) as (L1 & _). change (44 + 4) with 48 in L1. fold h1 in L1.
+  destruct (patch_spec h1 48 64 ltac:(lia) ltac:(lia)) as (L2 & _). change (48 + 4) with 52 in L2. fold h2 in L2.
+  destruct (patch_spec h2 52 4 ltac:(lia) ltac:(lia)) as (L3 & _). change (52 + 4) with 56 in L3. fold h3 in L3.
+  destruct (patch_spec h3 56 (Nblk H) ltac:(lia) ltac:(lia)) as (L4 & _). change (56 + 4) with 60 in L4. fold h4 in L4.
+  exists h4. split; [reflexivity|]. split; [lia|]. split.
+  - intros k Hk. unfold h4. rewrite (znth_patch_other h3 56) by lia. unfold h3. rewrite (znth_patch_other h2 52) by lia.
+    unfold h2. rewrite (znth_patch_other h1 48) by lia. unfold h1. rewrite (znth_patch_other hb 44) by lia. reflexivity.
+  - assert (U : forall o, o + 4 <= 44 \/ 60 <= o -> u32_at h4 o = u32_at hb o).
+    { intros o Hoo. unfold h4. rewrite (u32_at_patch_other h3 56) by lia. unfold h3. rewrite (u32_at_patch_other h2 52) by lia.
+      unfold h2. rewrite (u32_at_patch_other h1 48) by lia. unfold h1. rewrite (u32_at_patch_other hb 44) by lia. reflexivity. }
+    assert (U44 : u32_at h4 44 = 64).
+    { unfold h4. rewrite (u32_at_patch_other h3 56) by lia. unfold h3. rewrite (u32_at_patch_other h2 52) by lia.
+      unfold h2. rewrite (u32_at_patch_other h1 48) by lia. apply (u32_at_patch_same hb 44 64); lia. }
+    assert (U48 : u32_at h4 48 = 64).
+    { unfold h4. rewrite (u32_at_patch_other h3 56) by lia. unfold h3. rewrite (u32_at_patch_other h2 52) by lia.
+      apply (u32_at_patch_same h1 48 64); lia. }
+    assert (U52 : u32_at h4 52 = 4).
+    { unfold h4. rewrite (u32_at_patch_other h3 56) by lia. apply (u32_at_patch_same h2 52 4); lia. }
+    assert (U56 : u32_at h4 56 = Nblk H) by (apply (u32_at_patch_same h3 56 (Nblk H)); lia).
+    unfold hdr_of_bytes, set_layout. cbn [h_u32_0 h_u32_4 h_u32_8 h_u32_12 h_i32_40 h_u32_44 h_u32_48 h_u32_52 h_u32_56 h_u32_60 h_u32_64 h_u32_68 h_u32_72].
+    unfold i32_at. rewrite U44, U48, U52, U56. rewrite !U by lia. reflexivity.
+Qed.
+
+(* ================= footer ================= *)
+Definition zmem (k : Z) (l : list Z) : bool := existsb (Z.eqb k) l.
+(* a template the writers produce: distinct field codes; an entry that duplicates ANOTHER field refers to an
+   earlier entry (HeaderwordInfo._find_duplicated_headerwords maps to the first field with the same values) *)
+Fixpoint wf_tmpl_aux (seen : list Z) (T : tmpl) : bool :=
+  match T with
+  | [] => true
+  | (k, v0, v1) :: r =>
+      negb (zmem k seen) &&
+      (if (v0 =? 0) && negb (v1 =? 0) && negb (v1 =? k) then zmem v1 seen else true) &&
+      wf_tmpl_aux (seen ++ [k]) r
+  end.
+Definition wf_tmpl (T : tmpl) : bool := wf_tmpl_aux [] T.
+
+Definition keys {V} (d : list (Z * V)) : list Z := map fst d.
+
+Lemma zmem_In k l : zmem k l = true <-> In k l.
+Proof.
+  unfold zmem. rewrite existsb_exists. split.
+  - intros (x & Hx & E). apply Z.eqb_eq in E. subst. exact Hx.
+  - intro Hk. exists k. split; [exact Hk | apply Z.eqb_refl].
+Qed.
+
+Lemma d_lookup_none {V} k (d : list (Z * V)) : ~ In k (keys d) -> d_lookup k d = None.
+Proof.
+  induction d as [|(k', e) d IH]; intro Hn; [reflexivity|]. cbn [d_lookup]. cbn in Hn.
+  destruct (Z.eqb_spec k k') as [-> | Hne]; [exfalso; apply Hn; left; reflexivity|]. apply IH. tauto.
+Qed.
+Lemma d_lookup_some {V} k (d : list (Z * V)) : In k (keys d) -> exists e, d_lookup k d = Some e.
+Proof.
+  induction d as [|(k', e) d IH]; intro Hn; [destruct Hn|]. cbn [d_lookup].
+  destruct (Z.eqb_spec k k') as [-> | Hne]; [eexists; reflexivity|]. apply IH. cbn in Hn. destruct Hn; [congruence | assumption].
+Qed.
+Lemma d_set_fresh {V} k (e : V) d : ~ In k (keys d) -> d_set k e d = d ++ [(k, e)].
+Proof.
+  induction d as [|(k', e') d IH]; intro Hn; [reflexivity|]. cbn [d_set app]. cbn in Hn.
+  destruct (Z.eqb_spec k k') as [-> | Hne]; [exfalso; apply Hn; left; reflexivity|]. rewrite IH by tauto. reflexivity.
+Qed.
+
+(* indices of the arrays the footer loop writes, given the final header_dict: entries that are file offsets and
+   whose table entry names themselves *)
+Definition out_of (T : tmpl) (d : list (Z * hentry)) : list Z :=
+  flat_map (fun ke : Z * hentry => match ke with
+            | (k, EOff j) => if tmpl_dup T k =? k then [j] else []
+            | (_, EConst _) => [] end) d.
+
+Lemma out_of_app T d1 d2 : out_of T (d1 ++ d2) = out_of T d1 ++ out_of T d2.
+Proof. unfold out_of. apply flat_map_app. Qed.
+
+Lemma tmpl_dup_at (T1 T2 : tmpl) k v0 v1 : ~ In k (map (fun t => fst (fst t)) T1) ->
+  tmpl_dup (T1 ++ (k, v0, v1) :: T2) k = v1.
+Proof.
+  intro Hn. unfold tmpl_dup. rewrite map_app. cbn [map].
+  induction T1 as [|((c, a), b) T1 IH]; cbn [map app d_lookup].
+  - rewrite Z.eqb_refl. reflexivity.
+  - cbn in Hn. destruct (Z.eqb_spec k c) as [-> | Hne]; [exfalso; apply Hn; left; reflexivity|]. apply IH. tauto.
+Qed.
+
+Lemma zrange0_snoc m : 0 <= m -> zrange 0 m ++ [m] = zrange 0 (m + 1).
+Proof. intro. symmetry. apply zrange_snoc. assumption. Qed.
+
+Lemma header_dict_out T : forall Tr Tp d cnt,
+  T = Tp ++ Tr -> keys d = map (fun t => fst (fst t)) Tp -> wf_tmpl_aux (keys d) Tr = true -> 0 <= cnt ->
+  out_of T d = zrange 0 cnt ->
+  out_of T (fst (fold_left hd_step Tr (d, cnt))) = zrange 0 (snd (fold_left hd_step Tr (d, cnt))) /\
+  0 <= snd (fold_left hd_step Tr (d, cnt)).
+Proof.
+  induction Tr as [|((k, v0), v1) Tr IH]; intros Tp d cnt ET EK WF Hc Hout.
+  - cbn. split; assumption.
+  - cbn [wf_tmpl_aux] in WF. rewrite !andb_true_iff in WF. destruct WF as ((Hfresh & Halias) & WF).
+    assert (Hk : ~ In k (keys d)).
+    { intro Hin. apply zmem_In in Hin. rewrite Hin in Hfresh. discriminate. }
+    assert (TD : tmpl_dup T k = v1).
+    { rewrite ET. apply tmpl_dup_at. rewrite <- EK. exact Hk. }
+    cbn [fold_left].
+    assert (Est : hd_step (d, cnt) (k, v0, v1) =
+                  if negb (v0 =? 0) || (v1 =? 0) then (d_set k (EConst v0) d, cnt)
+                  else match d_lookup v1 d with
+                       | Some e => (d_set k e d, cnt)
+                       | None => (d_set k (EOff cnt) d, cnt + 1)
+                       end) by reflexivity.
+    rewrite Est. clear Est.
+    assert (Next : forall e, keys (d_set k e d) = map (fun t => fst (fst t)) (Tp ++ [(k, v0, v1)]) /\
+                             wf_tmpl_aux (keys (d_set k e d)) Tr = true).
+    { intro e. rewrite d_set_fresh by exact Hk. unfold keys. rewrite !map_app. cbn [map fst]. fold (keys d).
+      rewrite <- EK. split; [reflexivity | exact WF]. }
+    assert (ET' : T = (Tp ++ [(k, v0, v1)]) ++ Tr) by (rewrite <- app_assoc; exact ET).
+    destruct (negb (v0 =? 0) || (v1 =? 0)) eqn:Econst.
+    + destruct (Next (EConst v0)) as (K1 & K2). apply (IH (Tp ++ [(k, v0, v1)])); try assumption.
+      rewrite d_set_fresh by exact Hk. rewrite out_of_app. cbn. rewrite app_nil_r. exact Hout.
+    + apply orb_false_iff in Econst. destruct Econst as (E0 & E1). apply negb_false_iff in E0.
+      destruct (d_lookup v1 d) as [e|] eqn:Elk.
+      * destruct (Next e) as (K1 & K2). apply (IH (Tp ++ [(k, v0, v1)])); try assumption.
+        rewrite d_set_fresh by exact Hk. rewrite out_of_app, Hout.
+        assert (Hne : v1 <> k).
+        { intro E. rewrite E in Elk. rewrite (d_lookup_none k d Hk) in Elk. discriminate. }
+        cbn. destruct e as [c | j]; [rewrite app_nil_r; reflexivity|]. rewrite TD.
+        replace (v1 =? k) with false by lia. cbn. rewrite app_nil_r. reflexivity.
+      * assert (Eself : v1 = k).
+        { destruct (Z.eq_dec v1 k) as [E | Hne]; [exact E|]. exfalso.
+          rewrite E0, E1 in Halias. replace (v1 =? k) with false in Halias by lia. cbn in Halias.
+          apply zmem_In in Halias. destruct (d_lookup_some v1 d Halias) as (e & Ee). congruence. }
+        destruct (Next (EOff cnt)) as (K1 & K2). apply (IH (Tp ++ [(k, v0, v1)])); try assumption; [lia|].
+        rewrite d_set_fresh by exact Hk. rewrite out_of_app, Hout. cbn. rewrite TD, Eself, Z.eqb_refl. cbn.
+        apply zrange0_snoc. exact Hc.
+Qed.
+
+Lemma stride_ge_hel H : 0 <= rd_padded_header_entry_length_bytes H - rd_header_entry_length_bytes H.
+Proof.
+  unfold rd_padded_header_entry_length_bytes, rd_padded_header_entry_length_bytes_v1, rd_header_entry_length_bytes.
+  destruct (rd_file_version_enc_v1 H >? version_to_encoding 0 2 1 false); [|lia].
+  set (h := rd_header_entry_length_bytes_v1 H).
+  pose proof (Z.div_mod (h - 1) 512 ltac:(lia)). pose proof (Z.mod_pos_bound (h - 1) 512 ltac:(lia)). lia.
+Qed.
+
+Lemma footer_mapM H T nlive (d : list (Z * hentry)) :
+  mapM (fun kv : Z * (Z * bool) => match kv with (k, (j, m)) =>
+          let alen := if (m : bool) then 4 * nlive else rd_header_entry_length_bytes H in
+          let p := rb_footer_pad H alen in
+          if p <? 0 then Raise ValueErr else Return (j, m, p) end)
+       (filter (fun kv : Z * (Z * bool) => if rb_footer_stored_only then tmpl_dup T (fst kv) =? fst kv else true)
+          (flat_map (fun ke : Z * hentry => match ke with
+                                    | (k, EOff j) => [(k, (j, use_mask H rb_footer_include_padding))]
+                                    | (_, EConst _) => []
+                                    end) d)) =
+  Return (map (fun j => (j, false, rd_padded_header_entry_length_bytes H - rd_header_entry_length_bytes H)) (out_of T d)).
+Proof.
+  assert (UM : use_mask H rb_footer_include_padding = false).
+  { unfold use_mask, rb_footer_include_padding. rewrite orb_true_r. cbn. apply andb_false_r. }
+  rewrite UM. change rb_footer_stored_only with true. cbv iota.
+  induction d as [|(k, e) d IH]; [reflexivity|].
+  cbn [flat_map out_of]. destruct e as [c | j]; [exact IH|].
+  cbn [app filter fst]. destruct (tmpl_dup T k =? k).
+  - cbn [mapM map app]. unfold rb_footer_pad at 1. pose proof (stride_ge_hel H) as SG.
+    replace (rd_padded_header_entry_length_bytes H - rd_header_entry_length_bytes H <? 0) with false by lia.
+    cbn [bind]. fold (out_of T d). unfold out_of in IH. rewrite IH. reflexivity.
+  - cbn [app]. exact IH.
+Qed.
+
+Lemma footer_spec H T nlive : wf_tmpl T = true ->
+  rb_footer H T nlive =
+  Return (map (fun j => (j, false, rd_padded_header_entry_length_bytes H - rd_header_entry_length_bytes H))
+              (zrange 0 (snd (header_dict T)))).
+Proof.
+  intro WF. unfold rb_footer, variant_headers. rewrite footer_mapM.
+  destruct (header_dict_out T T [] [] 0 eq_refl eq_refl WF ltac:(lia) eq_refl) as (E & _).
+  unfold header_dict. rewrite E. reflexivity.
+Qed.
+
+(* ================= the whole conversion ================= *)
+Lemma reblock_refuses_lemma H hb T L nlive : rb_guard H = false -> reblock H hb T L nlive = Raise AssertErr.
+Proof.
+  unfold rb_guard, reblock. intro G. destruct (rb_assert_rate H); [|reflexivity]. cbn in G. rewrite G. reflexivity.
+Qed.
+
+Lemma reblock_returns H hb T L nlive :
+  wf3 H = true -> rb_guard H = true -> 60 <= zlen hb -> Nblk H < 4294967296 -> wf_tmpl T = true ->
+  exists hb', rb_header H hb = Return hb' /\
+    reblock H hb T L nlive =
+    Return {| o_header := hb'; o_data := rb_data H L;
+              o_footer := map (fun j => (j, false, rd_padded_header_entry_length_bytes H - rd_header_entry_length_bytes H))
+                              (zrange 0 (snd (header_dict T))) |}.
+Proof.
+  intros W G Hlen Hn WT. destruct (header_spec H hb W G Hlen Hn) as (hb' & E & _). exists hb'. split; [exact E|].
+  unfold reblock. unfold rb_guard in G. apply andb_true_iff in G. destruct G as (G1 & G2). rewrite G1, G2. cbn [negb].
+  rewrite E. cbn [bind]. rewrite (footer_spec H T nlive WT). reflexivity.
+Qed.
+
+(* ================= statements in the form Props/C12.v quotes ================= *)
+Definition out_hdr (H : hdr) : hdr :=
+  set_layout H 64 64 4 ((pad_to (s_nil H) 64 / 64) * (pad_to (s_nxl H) 64 / 64) * (pad_to (s_ns H) 4 / 4)).
+
+Lemma guard_iff H : wf3 H = true ->
+  (rb_guard H = true <-> s_rate_code H = 2 /\ s_bs0 H = 4 /\ s_bs1 H = 4 /\ s_bs2 H = 1024).
+Proof.
+  intro W. pose proof (wf3_facts H W) as F. split.
+  - intro G. split; [exact (guard_rate_code H W G)|]. destruct (g_default H W G) as [D0 D1].
+    split; [exact D0|]. split; [exact D1 | exact (g_bs2 H W G)].
+  - intros (R & B0 & B1 & B2). unfold rb_guard, rb_assert_rate, rb_assert_blockshape.
+    rewrite (r_rn H F), (r_rd H F), (r_bs0 H F), (r_bs1 H F), (r_bs2 H F). unfold s_rn, s_rd. rewrite R, B0, B1, B2. reflexivity.
+Qed.
+
+Lemma header_full H hb L : wf3 H = true -> rb_guard H = true -> rd_data_start_bytes H + s_data_bytes3 H <= L ->
+  60 <= zlen hb -> s_ndb (out_hdr H) < 4294967296 ->
+  exists hb', rb_header H hb = Return hb' /\ zlen hb' = zlen hb /\
+    (forall k, k < 44 \/ 60 <= k -> znth hb' k 0 = znth hb k 0) /\
+    hdr_of_bytes hb' = set_layout (hdr_of_bytes hb) 64 64 4 (s_ndb (out_hdr H)) /\
+    wf3 (out_hdr H) = true /\
+    s_data_bytes3 (out_hdr H) = 4096 * s_ndb (out_hdr H) /\
+    zlen (rb_data H L) = s_data_bytes3 (out_hdr H).
+Proof.
+  intros W G HL Hlen Hn. destruct (header_spec H hb W G Hlen Hn) as (hb' & A & B & C0 & D). exists hb'.
+  split; [exact A|]. split; [exact B|]. split; [exact C0|]. split; [exact D|]. split; [exact (Ho_wf H W G)|].
+  exact (Ho_data_bytes H W G L HL).
+Qed.
+
+Lemma footer_full H T nlive : wf_tmpl T = true -> template_ok T (rd_n_header_arrays H) = true ->
+  let stride := rd_padded_header_entry_length_bytes H in let hel := rd_header_entry_length_bytes H in
+  rb_footer H T nlive = Return (map (fun j => (j, false, stride - hel)) (zrange 0 (rd_n_header_arrays H))) /\
+  0 <= stride - hel /\
+  rd_padded_header_entry_length_bytes (out_hdr H) = stride /\ rd_header_entry_length_bytes (out_hdr H) = hel /\
+  rd_n_header_arrays (out_hdr H) = rd_n_header_arrays H /\ rd_tracecount (out_hdr H) = rd_tracecount H.
+Proof.
+  intros WT TO stride hel. unfold template_ok in TO. apply Z.eqb_eq in TO.
+  split; [rewrite <- TO; exact (footer_spec H T nlive WT)|]. split; [exact (stride_ge_hel H)|]. repeat split; reflexivity.
+Qed.
+
+(* the unit permutation as a table the correspondence harness evaluates: (byte position of the unit in the output
+   data section, file offset of its 16 bytes in the source, or None for a zero-filled unit) *)
+Definition unit_expect (H : hdr) (iu xu zu : Z) : Z * option Z :=
+  (s_ub3 (out_hdr H) * unit_index3 (out_hdr H) iu xu zu,
+   if (4 * iu <? s_nil H) && (4 * xu <? s_nxl H)
+   then Some (rd_data_start_bytes H + s_ub3 H * unit_index3 H iu xu zu) else None).
+Definition unit_grid (H : hdr) : Z * Z * Z := (s_PI (out_hdr H) / 4, s_PX (out_hdr H) / 4, s_PZ (out_hdr H) / 4).
+
+Lemma unit_expect_ok H : wf3 H = true -> rb_guard H = true ->
+  forall L, rd_data_start_bytes H + s_data_bytes3 H <= L ->
+  forall iu xu zu j, 0 <= iu < fst (fst (unit_grid H)) -> 0 <= xu < snd (fst (unit_grid H)) ->
+    0 <= zu < snd (unit_grid H) -> 0 <= j < 16 ->
+    znth (rb_data H L) (fst (unit_expect H iu xu zu) + j) None =
+    option_map (fun o => o + j) (snd (unit_expect H iu xu zu)).
+Proof.
+  intros W G L HL iu xu zu j Hi Hx Hz Hj. unfold unit_expect, unit_grid in *. cbn [fst snd] in *.
+  assert (Hj' : 0 <= j < s_ub3 (Ho H)) by (rewrite (Ho_ub H W G); exact Hj).
+  pose proof (unit_permutation H W G L HL iu xu zu j Hi Hx Hz Hj') as P. change (Ho H) with (out_hdr H) in P.
+  rewrite P. destruct ((4 * iu <? s_nil H) && (4 * xu <? s_nxl H)); reflexivity.
 Qed.
